@@ -21,6 +21,7 @@ from ..mxutil import mx, reset_session, sanity
 from ..live import World
 from ..gen import ModelGen, EditGen, EDIT_KINDS
 from .. import refmodel as R
+from .. import c02_handled
 
 ID = "C02"
 LEVEL = "exploration"
@@ -211,6 +212,8 @@ def gen_cases(tier, seed):
         for unc in (False, True):
             yield {"id": "sq%d_%d" % (j, unc), "kind": "sequence", "edits": [a_, b_], "uncached": unc,
                    "seed": env.derive_seed(seed, ID, "sq", j, unc), "checkpoints": "all"}
+    for c in c02_handled.cases():
+        yield c
     n = 400 if tier == "quick" else 15000
     for j in range(n):
         yield {"id": "r%d" % j, "kind": "random", "seed": env.derive_seed(seed, ID, "r", j),
@@ -228,7 +231,7 @@ SEQUENCES = [   # an input, read by dependents (also from another space), then a
 
 
 def expand(case):
-    if "ops" in case:
+    if "ops" in case or case.get("kind") == "handled":
         return case
     rnd = random.Random(case["seed"])
     c = dict(case)
@@ -308,6 +311,8 @@ DISAGREE = []
 
 def run_case(case):
     case = expand(case)
+    if case.get("kind") == "handled":
+        return c02_handled.run(case)
     reset_session()
     live = World("M")
     vio = []
@@ -434,5 +439,7 @@ def _n(v):
 
 
 def shrink(case, violations, deadline):
+    if case.get("kind") == "handled":
+        return None
     from ..shrink import shrink_ops
     return shrink_ops(expand(case), run_case, violations, deadline)
